@@ -168,7 +168,7 @@ impl Prop for C20 {
 
     fn profiles(tier: Tier) -> Vec<Profile> {
         match tier {
-            Tier::Quick => vec![prof("run", 16_000), prof("start", 6_000), prof("null", 1_500)],
+            Tier::Quick => vec![prof("run", 48_000), prof("start", 18_000), prof("null", 4_500)],
             Tier::Thorough => vec![prof("run", 700_000), prof("start", 250_000), prof("null", 50_000)],
         }
     }
